@@ -1210,6 +1210,11 @@ func (ctx *RenderContext) getItem(container, index interface{}) (interface{}, er
 			// Try to find the key
 			var mapKey reflect.Value
 
+			// A nil index (null, an undefined variable) is in no map
+			if index == nil {
+				return nil, nil
+			}
+
 			// Convert the index to the map's key type if possible
 			keyType := v.Type().Key()
 			indexValue := reflect.ValueOf(index)
@@ -1224,6 +1229,11 @@ func (ctx *RenderContext) getItem(container, index interface{}) (interface{}, er
 				} else {
 					return nil, nil // Key type mismatch
 				}
+			}
+
+			// A key that cannot be hashed (a slice, a map) is in no map
+			if !mapKey.Comparable() {
+				return nil, nil
 			}
 
 			mapValue := v.MapIndex(mapKey)
